@@ -176,3 +176,25 @@ package scheduler
 //@ ensures result.Slot == uint64(int64(age / slotDuration))
 //@ ensures result.Time == genesisTime.Add(time.Duration(int64(age / slotDuration)) * slotDuration)
 
+
+// ---- early attestation fetch (alpha features fetch_att_on_block*): never a trigger, and the attester duty still waits
+// for its slot offset ------------------------------------------------------------------------------------------------
+// A head event only starts a fetch-only call for the slot's attester duty, at most once per slot, with a clone of the
+// resolved definitions; it never calls a duty subscriber.
+//@ func (s *Scheduler) HandleHeadEvent
+//@ props C15
+//@ callreq s.getDutyDefinitionSet: a1.Slot == uint64(slot) && a1.Type == core.DutyAttester
+//@ ensures ncalls(sub) == 0 && ncalls(s.getDutyDefinitionSet) <= 1
+
+//@ func (s *Scheduler) HandleHeadEvent$1
+//@ props C15
+//@ callreq s.fetcherFetchOnly: a2 == duty && a3 == clonedDefSet && a4 == bnAddr && a5 == blockRoot
+//@ ensures ncalls(s.fetcherFetchOnly) == 1
+
+// With the early-fetch features on, the attester duty is released by the clock at slot start + the attester offset
+// (+300ms with the delay variant), never by the head event itself.
+//@ func (s *Scheduler) waitForEarlyFetchOrTimeout
+//@ props C15
+//@ pure time.Until featureset.Enabled
+//@ callreq s.clock.After: has(slotOffsets, core.DutyAttester) && fn == slotOffsets[core.DutyAttester] && offset == fn(slot.SlotDuration) + ite(featureset.Enabled(featureset.FetchAttOnBlockWithDelay), 300 * time.Millisecond, 0) && a1 == time.Until(slot.Time.Add(offset))
+//@ ensures result && has(slotOffsets, core.DutyAttester) ==> ncalls(s.clock.After) == 1
